@@ -760,8 +760,140 @@ fn logdomain_threshold(rng: &mut Rng, rep: &mut Report, n: usize, window: usize,
     logdomain_check(rep, &regime, &lx);
 }
 
+const NEGINF_PLACEMENTS: [&str; 5] = ["leading", "trailing", "interior", "scattered", "single-finite"];
+const NEGINF_MAGS: [&str; 9] = ["scale=1", "scale=50", "scale=800", "scale=1e4", "below-exp-overflow", "above-exp-underflow", "log-prob", "constant", "nonpos-zero-max"];
+
+/// k >= 1 finite log-domain values of one of the magnitude classes this monitor uses elsewhere
+/// (uniform at four scales, maximum just inside the exp thresholds, logarithms of normalised
+/// weights, a constant vector, one-sided values with an exact 0 maximum).
+fn finite_logvals(rng: &mut Rng, k: usize, mag: usize) -> Vec<f64> {
+    let mut v: Vec<f64> = match mag {
+        0..=3 => {
+            let scale = [1.0, 50.0, 800.0, 1e4][mag];
+            (0..k).map(|_| rng.range(-1.0, 1.0) * scale).collect()
+        }
+        4 | 5 => {
+            let (_, lo, hi) = THRESHOLD_WINDOWS[mag - 4];
+            let m = rng.range(lo, hi);
+            let tail = *rng.choose(&[0.0, 1e-6, 2.0, 100.0, 1500.0]);
+            (0..k).map(|i| if i == 0 { m } else { m - rng.f64() * tail }).collect()
+        }
+        6 => {
+            let w: Vec<f64> = (0..k).map(|_| rng.exp1() + 1e-300).collect();
+            let tot: f64 = w.iter().sum();
+            w.iter().map(|t| (t / tot).ln()).collect()
+        }
+        7 => {
+            let c = rng.normal() * *rng.choose(&[1.0, 50.0, 800.0, 1e4]);
+            vec![c; k]
+        }
+        _ => (0..k).map(|i| if i == 0 { 0.0 } else { -rng.log_range(1e-3, 1e3) }).collect(),
+    };
+    rng.shuffle(&mut v);
+    v
+}
+
+/// Log-domain reductions of vectors that contain −inf entries (logarithms of zero weights, masked
+/// scores) next to at least one finite entry: exp(−inf) = 0, so the definition is the log-sum-exp of
+/// the finite entries (log-mean-exp: with the full count n in the mean). The −inf entries sit in
+/// leading, trailing, interior or scattered positions, or everywhere but one position.
+fn logdomain_neginf(rng: &mut Rng, rep: &mut Report, n: usize, placement: usize, mag: usize) {
+    if n < 2 || (placement == 2 && n < 3) {
+        return;
+    }
+    // mask[i] = true: entry i is −inf. 1 <= number of −inf entries <= n−1.
+    let mut mask = vec![false; n];
+    let count = |rng: &mut Rng, hi: usize| -> usize {
+        // half of the cases: two or more (runs of −inf), else any count
+        if hi >= 2 && rng.bool() {
+            rng.usize(2, hi)
+        } else {
+            rng.usize(1, hi)
+        }
+    };
+    match placement {
+        0 => {
+            let k = count(rng, n - 1);
+            mask[..k].iter_mut().for_each(|t| *t = true);
+        }
+        1 => {
+            let k = count(rng, n - 1);
+            mask[n - k..].iter_mut().for_each(|t| *t = true);
+        }
+        2 => {
+            let k = count(rng, n - 2);
+            let start = rng.usize(1, n - 1 - k);
+            mask[start..start + k].iter_mut().for_each(|t| *t = true);
+        }
+        3 => {
+            let k = count(rng, n - 1);
+            for &i in &rng.perm(n)[..k] {
+                mask[i] = true;
+            }
+        }
+        _ => {
+            mask.iter_mut().for_each(|t| *t = true);
+            // the finite entry: first, last or anywhere
+            let at = match rng.usize(0, 3) {
+                0 => 0,
+                1 => n - 1,
+                _ => rng.usize(0, n - 1),
+            };
+            mask[at] = false;
+        }
+    }
+    let nf = mask.iter().filter(|t| !**t).count();
+    let fin = finite_logvals(rng, nf, mag);
+    let mut it = fin.iter();
+    let lx: Vec<f64> = mask.iter().map(|&inf| if inf { f64::NEG_INFINITY } else { *it.next().unwrap() }).collect();
+    // the signature is the placement (the mechanism class); the magnitude class of the finite
+    // entries is counted as a coverage label of its own
+    let regime = format!("reduce:logdomain-neginf:{}", NEGINF_PLACEMENTS[placement]);
+    rep.seen(&format!("reduce:logdomain-neginf:finite-entries:{}", NEGINF_MAGS[mag]), 1);
+    rep.case(&regime);
+    rep.distinct(Hasher::new().s("reduce-neginf").fs(&lx).finish(), true);
+    // the max-shifted double-double reference of `logdomain_check` is the reference over the finite
+    // entries: the maximum is finite and every −inf entry contributes exp(−inf) = 0 exactly
+    logdomain_check(rep, &regime, &lx);
+    rep.sample(|| json!({"family": "logdomain-neginf", "placement": NEGINF_PLACEMENTS[placement], "magnitudes": NEGINF_MAGS[mag], "len": n, "neg_inf_entries": n - nf, "x": jf(&lx[..n.min(12)])}));
+}
+
+/// Corners the quantifier ("large-magnitude log-domain inputs") does not clearly cover: a vector
+/// of −inf only (every weight zero; the definition gives −inf) and vectors with +inf entries (the
+/// definition gives +inf). What the library returns is counted as evidence and not judged.
+fn logdomain_unjudged(rng: &mut Rng, rep: &mut Report, n: usize) {
+    let class = |r: &Result<f64, String>| match r {
+        Err(_) => "panic",
+        Ok(g) if g.is_nan() => "nan",
+        Ok(g) if *g == f64::NEG_INFINITY => "neg_inf",
+        Ok(g) if *g == f64::INFINITY => "pos_inf",
+        Ok(_) => "finite",
+    };
+    let all = vec![f64::NEG_INFINITY; n];
+    rep.case("reduce:logdomain-neginf:all-neg-inf(unjudged)");
+    for (f, r) in [("logsumexp", guard(|| logsumexp(&all))), ("logmeanexp", guard(|| logmeanexp(&all))), ("Vector::logsumexp", guard(|| Vector::new(all.clone()).logsumexp())), ("Vector::logmeanexp", guard(|| Vector::new(all.clone()).logmeanexp()))] {
+        rep.note_add(&format!("evidence.logdomain.all-neg-inf.{}.{}", f, class(&r)), 1.0);
+    }
+    let pmag = rng.usize(0, NEGINF_MAGS.len() - 1);
+    let mut px = finite_logvals(rng, n, pmag);
+    let k = rng.usize(1, n.min(3));
+    for &i in &rng.perm(n)[..k] {
+        px[i] = f64::INFINITY;
+    }
+    if n >= 2 && rng.bool() {
+        let i = rng.usize(0, n - 1);
+        if px[i].is_finite() {
+            px[i] = f64::NEG_INFINITY;
+        }
+    }
+    rep.case("reduce:logdomain-posinf(unjudged)");
+    for (f, r) in [("logsumexp", guard(|| logsumexp(&px))), ("logmeanexp", guard(|| logmeanexp(&px))), ("Vector::logsumexp", guard(|| Vector::new(px.clone()).logsumexp())), ("Vector::logmeanexp", guard(|| Vector::new(px.clone()).logmeanexp()))] {
+        rep.note_add(&format!("evidence.logdomain.pos-inf-entries.{}.{}", f, class(&r)), 1.0);
+    }
+}
+
 pub fn run(cfg: &Cfg, rep: &mut Report) {
-    rep.rule = "every operator impl (4 ops x {Vector,Matrix} x {owned,borrowed}^2 vec∘vec, scalar-left/right, compound assignment, Neg, matmat* fns), 29 maps, powi (8 exponents), powf (4) at every length 0..=40 (lite: 0..=17,24,33) and random lengths up to 1e4, elements pairwise distinct with ±0, ±inf, subnormals, NaN mixed in; reductions against double-double references. non-trivial = length >= 1; distinct by (container, family, impl, length); reductions additionally on sign-pattern vectors (all <= 0 / all >= 0 with exact ±0, single non-zero, negatives only, mixed) at every length 1..=40 and random lengths, and on log-domain vectors whose maximum lies in (690, 709.78) or (-745, -690) with 1..=1000 entries tied with / next to the maximum".into();
+    rep.rule = "every operator impl (4 ops x {Vector,Matrix} x {owned,borrowed}^2 vec∘vec, scalar-left/right, compound assignment, Neg, matmat* fns), 29 maps, powi (8 exponents), powf (4) at every length 0..=40 (lite: 0..=17,24,33) and random lengths up to 1e4, elements pairwise distinct with ±0, ±inf, subnormals, NaN mixed in; reductions against double-double references. non-trivial = length >= 1; distinct by (container, family, impl, length); reductions additionally on sign-pattern vectors (all <= 0 / all >= 0 with exact ±0, single non-zero, negatives only, mixed) at every length 1..=40 and random lengths, and on log-domain vectors whose maximum lies in (690, 709.78) or (-745, -690) with 1..=1000 entries tied with / next to the maximum, and on log-domain vectors with −inf entries (leading / trailing / interior / scattered / all but one position) next to finite entries of every magnitude class at every length 2..=40 and random lengths".into();
     rep.assume("powi has no IEEE definition: the runtime-exponent f64::powi (compiler-rt repeated squaring) is taken as the scalar operation; x*x and x*x*x are bit-identical to it");
     rep.assume("prod is checked on well-scaled data (no overflow/underflow) with a relative gamma_n bound; reductions of the empty slice other than sum/prod/dot/norm are outside the quantifier");
     rep.assume("Matrix shape mismatches are checked for pairs that NumPy broadcasting (C12) does not make compatible");
@@ -836,6 +968,28 @@ pub fn run(cfg: &Cfg, rep: &mut Report) {
                 rep.require(&format!("reduce:logdomain-threshold:{}:{}", w, k), 1);
             }
         }
+        // log-domain reductions with −inf entries (logarithms of zero weights): every length 1..=40 x
+        // placement x magnitude class, then random longer vectors; all-(−inf) and +inf corners as evidence
+        let (npl, nmg) = (NEGINF_PLACEMENTS.len(), NEGINF_MAGS.len());
+        let ireps = cfg.pick(1, 10, 1).max(1);
+        par_cases(cfg, rep, 9, slens.len() * npl * nmg * ireps, |i, rng, rep| {
+            logdomain_neginf(rng, rep, slens[(i / (npl * nmg)) % slens.len()], i % npl, (i / npl) % nmg);
+        });
+        par_cases(cfg, rep, 10, cfg.pick(450, 4500, 45), |i, rng, rep| {
+            let n = if rng.chance(0.8) { rng.usize(41, 600) } else { rng.usize(601, 10_000) };
+            logdomain_neginf(rng, rep, n, i % npl, (i / npl) % nmg);
+        });
+        par_cases(cfg, rep, 11, cfg.pick(60, 400, 10), |i, rng, rep| {
+            let n = if i < 40 { i + 1 } else { rng.usize(41, 2000) };
+            logdomain_unjudged(rng, rep, n);
+        });
+        for p in NEGINF_PLACEMENTS {
+            rep.require(&format!("reduce:logdomain-neginf:{}", p), (nmg * 10) as u64);
+        }
+        for m in NEGINF_MAGS {
+            rep.require(&format!("reduce:logdomain-neginf:finite-entries:{}", m), (npl * 10) as u64);
+        }
+        rep.assume("log-domain reductions with −inf entries are judged when at least one entry is finite (exp(−inf) = 0: reference over the finite entries, full count in the mean); a vector of −inf only and vectors with +inf entries are recorded as evidence (notes evidence.logdomain.*) and not judged");
     }
     for cont in ["Vector", "Matrix"] {
         for fam in ["vv", "scalar-left", "scalar-right", "assign", "assign-scalar", "neg", "map", "powi", "powf"] {
